@@ -365,13 +365,13 @@ func registerSDK(e *Engine) {
 				// empty bytes decode to the zero message
 				return nilErr
 			}
-			panic(engErr("unmarshal of raw (non-marshalled) bytes in %s", p.where()))
+			panic(codecConfusion{Site: p.where(), Msg: "raw (non-codec) bytes decoded with codec.Unmarshal"})
 		}
 		iv := a[2].(VIface)
 		ptr := iv.Val.(VPtr)
 		et := iv.Ty.(*types.Pointer).Elem()
 		if !types.Identical(et, bl.Ty) {
-			panic(engErr("unmarshal type mismatch: stored %v, read as %v", bl.Ty, et))
+			panic(codecConfusion{Site: p.where(), Msg: fmt.Sprintf("value stored as %v decoded as %v", bl.Ty, et)})
 		}
 		// gogoproto Unmarshal does not reset the target: it MERGES the decoded message into it
 		// (proto3 scalars equal to their zero value are not on the wire and leave the old field,
